@@ -738,8 +738,17 @@ def run(check, an: Analysis):
                    'absorbed', path=rules.path_lines(*bad) if bad and not stop_ok else None)
     enter = an.callee(ENV, '__aenter__')
     reached_ok, n_flush, bad = True, 0, None
-    not_early = rules.asserted(ast.parse('self._loop.time < self._initial_time',
-                                         mode='eval').body, False)
+
+    def not_early(path, index):
+        """`<the loop>.time < self._initial_time` observed false, the loop named by the
+        attribute or by whatever was stored into it on this path"""
+        loops = {'self._loop'}
+        for pos, seen in enumerate(path.events[:index]):
+            if seen.kind == 'store' and seen.data.get('path') == 'self._loop' and \
+                    seen.data.get('value') is not None and seen.depth == 0:
+                loops.add(rules.value_text(path, pos, seen.data['value']))
+        return [rules.asserted(ast.parse('%s.time < self._initial_time' % loop,
+                                         mode='eval').body, False) for loop in loops]
     for path in an.paths(enter):
         for index, event in enumerate(path.events):
             if not (event.kind in ('call', 'enter') and (
@@ -750,8 +759,8 @@ def run(check, an: Analysis):
                          and e['expr'] is not None and rules.value_text(
                              path, i, e['expr']) == 'time == self._initial_time'
                          for i, e in enumerate(path.events[:index]))
-            on_time = not_early in [f for _p, f, _a in
-                                    rules.path_inequalities(path, 0, index)]
+            observed = [f for _p, f, _a in rules.path_inequalities(path, 0, index)]
+            on_time = any(fact in observed for fact in not_early(path, index))
             if not (waited or on_time):
                 reached_ok, bad = False, bad or (path, index)
     check.instance('U', 'Environment.__aenter__:starts-at-initial-time',
@@ -760,11 +769,15 @@ def run(check, an: Analysis):
                    'reached the environment\'s initial time (%d starts on paths)' % n_flush,
                    path=rules.path_lines(*bad) if bad else None, analysed=n_flush)
     supp = an.method(ENVSCOPE, '_is_suppressed')
-    expr = [n for n in ast.walk(supp.node) if isinstance(n, ast.Return)]
     param = supp.node.args.args[1].arg
-    check.instance('U', 'EnvironmentScope._is_suppressed', len(expr) == 1 and equal_bool(
-        expr[0].value, 'isinstance(%s, StopSimulation) or super()._is_suppressed(%s)'
-        % (param, param)), where_fn(supp), 'absorbs StopSimulation, else the base rule')
+    from ..norm import function_predicate, equivalent_terms, bool_term
+    got = function_predicate(supp.node)
+    want = bool_term(ast.parse(
+        'isinstance(%s, StopSimulation) or super()._is_suppressed(%s)' % (param, param),
+        mode='eval').body)
+    check.instance('U', 'EnvironmentScope._is_suppressed', got is not None and
+                   equivalent_terms(got, want), where_fn(supp),
+                   'absorbs StopSimulation, else the base rule')
     runm = an.callee(ENV, 'run')
     kinds = {}
     for path in an.paths(runm):
